@@ -1,8 +1,8 @@
 import CollectionsC.Proofs.PQueue
-import CollectionsC.Generated.Funcs
+import CollectionsC.Generated.FuncsPQueue
 /-! # C10 — translation validation of the priority-queue model
 
-`Generated/Funcs.lean` is re-translated from the current text of `src/cc_pqueue.c` on every build
+`Generated/FuncsPQueue.lean` is re-translated from the current text of `src/cc_pqueue.c` on every build
 (`tools/gen_funcs.py`): `struct cc_pqueue_s` and `struct cc_pqueue_conf_s` as records with all their fields
 (the allocator triple as `Option Triple`, the comparator as `Option (Nat → Nat → Int)`, `exp_factor` as
 `Float32`), the macros `CC_PARENT/CC_LEFT/CC_RIGHT`, `DEFAULT_CAPACITY`, `DEFAULT_EXPANSION_FACTOR`
@@ -34,15 +34,16 @@ def exGeOf (f : Float32) (q : Nat) : Bool := decide (f ≥ Float32.ofNat q)
 
 /-- model state ↦ generated record: the three allocator pointers denote the state's triple, the comparator
 pointer denotes `cmp`, the stored factor is `f` -/
-def ofPQ (cmp : Nat → Nat → Int) (f : Float32) (q : PQueue) : GenF.cc_pqueue_s :=
+def ofPQ (cmp : Nat → Nat → Int) (f : Float32) (q : PQueue) (sid : Nat := 0) (bid : Nat := 0) : GenF.cc_pqueue_s :=
   { size := q.size, capacity := q.capacity, exp_factor := f, buffer := q.buf,
-    mem_alloc := some q.triple, mem_calloc := some q.triple, mem_free := some q.triple, cmp := some cmp }
+    mem_alloc := some q.triple, mem_calloc := some q.triple, mem_free := some q.triple, cmp := some cmp,
+    id_ := sid, buffer_id := bid }
 
 /-- generated record ↦ model state -/
 def toPQ (g : GenF.cc_pqueue_s) : PQueue :=
   { triple := g.mem_free.getD .conf, size := g.size, capacity := g.capacity, buf := g.buffer }
 
-theorem toPQ_ofPQ (cmp : Nat → Nat → Int) (f : Float32) (q : PQueue) : toPQ (ofPQ cmp f q) = q := rfl
+theorem toPQ_ofPQ (cmp : Nat → Nat → Int) (f : Float32) (q : PQueue) (s b : Nat) : toPQ (ofPQ cmp f q s b) = q := rfl
 
 /-- the configuration record handed to `cc_pqueue_new_conf` -/
 def confOf (cmp : Nat → Nat → Int) (f : Float32) (t : Triple) (cap : Nat) : GenF.cc_pqueue_conf_s :=
@@ -66,6 +67,10 @@ theorem wmul8 (n : Nat) (h : n ≤ Gen.CC_MAX_ELEMENTS / PQueue.ptrSize) : GenF.
   rw [Nat.mod_eq_of_lt (by omega)]
   omega
 
+theorem wmul8_mod (n : Nat) : GenF.wmul n 8 % 8 = 0 := by
+  unfold GenF.wmul
+  rw [Nat.mod_mod_of_dvd _ (by decide : 8 ∣ 2 ^ 64), Nat.mul_mod_left]
+
 /-- `cc_pqueue_top`: fault-free, status code and out-value; the ledger is untouched -/
 theorem pq_top_agrees (cmp : Nat → Nat → Int) (f : Float32) (q : PQueue) (m : Mem) (h : q.Inv cmp) :
     GenF.cc_pqueue_top (ofPQ cmp f q) = ((q.top m).1.code, (q.top m).2.1, false) ∧ (q.top m).2.2 = m := by
@@ -74,19 +79,24 @@ theorem pq_top_agrees (cmp : Nat → Nat → Int) (f : Float32) (q : PQueue) (m 
   unfold GenF.cc_pqueue_top PQueue.top ofPQ
   by_cases c : q.size = 0 <;> simp [c, hb, codes]
 
-/-- `cc_pqueue_destroy`: both blocks go back through the queue's own release pointer; fault-free -/
-theorem pq_destroy_agrees (cmp : Nat → Nat → Int) (f : Float32) (q : PQueue) (m : Mem) :
-    GenF.cc_pqueue_destroy (ofPQ cmp f q) m = (q.destroy m, false) := by
+/-- `cc_pqueue_destroy`: both blocks go back through the queue's own release pointer, first the buffer, then the
+struct; exactly the object's two blocks are released; fault-free -/
+theorem pq_destroy_agrees (cmp : Nat → Nat → Int) (f : Float32) (q : PQueue) (m : Mem) (sid bid : Nat) (hd : sid ≠ bid) :
+    GenF.cc_pqueue_destroy (ofPQ cmp f q sid bid) m = (q.destroy m, [sid, bid], false) := by
   unfold GenF.cc_pqueue_destroy PQueue.destroy ofPQ
-  simp
+  simp [GenF.isDead, hd]
 
 /-- `cc_pqueue_new_conf`, for every comparator, factor, triple, capacity and ledger (rejected capacities and
 refused allocations included): status code, the constructed object, the ledger; fault-free -/
-theorem pq_new_conf_agrees (cmp : Nat → Nat → Int) (f : Float32) (t : Triple) (cap : Nat) (m : Mem) :
-    GenF.cc_pqueue_new_conf (confOf cmp f t cap) m =
+theorem pq_new_conf_agrees (cmp : Nat → Nat → Int) (f : Float32) (t : Triple) (cap : Nat) (m : Mem) (nid : Nat) :
+    GenF.cc_pqueue_new_conf (confOf cmp f t cap) m nid =
       ((PQueue.new cap (exGeOf (effF f)) t m).1.code,
-       (PQueue.new cap (exGeOf (effF f)) t m).2.1.map (ofPQ cmp (effF f)),
-       (PQueue.new cap (exGeOf (effF f)) t m).2.2, false) := by
+       (PQueue.new cap (exGeOf (effF f)) t m).2.1.map (fun q => ofPQ cmp (effF f) q nid (nid + 1)),
+       (PQueue.new cap (exGeOf (effF f)) t m).2.2,
+       (if cap = 0 ∨ exGeOf (effF f) (Gen.CC_MAX_ELEMENTS / cap) = true ∨ cap > Gen.CC_MAX_ELEMENTS / PQueue.ptrSize then nid
+        else if (m.allocT t).1 then (if ((m.allocT t).2.allocT t).1 then nid + 2 else nid + 1) else nid),
+       (if ¬ (cap = 0 ∨ exGeOf (effF f) (Gen.CC_MAX_ELEMENTS / cap) = true ∨ cap > Gen.CC_MAX_ELEMENTS / PQueue.ptrSize) ∧
+           (m.allocT t).1 = true ∧ ((m.allocT t).2.allocT t).1 = false then [nid] else []), false) := by
   unfold GenF.cc_pqueue_new_conf PQueue.new confOf
   have hex : (if decide (f ≤ Float32.ofNat 1) = true then Float32.ofNat 2 else f) = effF f := by
     unfold effF; by_cases c : f ≤ Float32.ofNat 1 <;> simp [c]
@@ -107,7 +117,7 @@ theorem pq_new_conf_agrees (cmp : Nat → Nat → Int) (f : Float32) (t : Triple
   by_cases a1 : (m.allocT t).1 = true
   · by_cases a2 : ((m.allocT t).2.allocT t).1 = true
     · simp [c0, c1, c1', c2, c2', a1, a2, hw, ofPQ, codes, GenF.cc_pqueue_s.zero]
-    · simp [c0, c1, c1', c2, c2', a1, a2, codes]
+    · simp [c0, c1, c1', c2, c2', a1, a2, codes, GenF.cc_pqueue_s.zero]
   · simp [c0, c1, c1', c2, c2', a1, codes]
 
 theorem parent_eq0 (i : Nat) : (if 0 < i then GenF.wsub i 1 / 2 else 0) = Gen.ccParent i := by
@@ -117,11 +127,12 @@ theorem parent_eq0 (i : Nat) : (if 0 < i then GenF.wsub i 1 / 2 else 0) = Gen.cc
 theorem parent_le (j : Nat) : Gen.ccParent j ≤ j := by
   unfold Gen.ccParent; split <;> omega
 
-theorem loop_step_pos (cmp : Nat → Nat → Int) (n : Nat) (g : GenF.cc_pqueue_s) (i : Nat)
+theorem loop_step_pos (cmp : Nat → Nat → Int) (dead : List Nat) (n : Nat) (g : GenF.cc_pqueue_s) (i : Nat)
     (hc : g.cmp = some cmp) (hb : i < g.buffer.length) (h0 : i ≠ 0)
+    (hl1 : GenF.isDead dead g.id_ = false) (hl2 : GenF.isDead dead g.buffer_id = false)
     (hgt : cmp (Buf.get g.buffer i) (Buf.get g.buffer (Gen.ccParent i)) > 0) :
-    GenF.cc_pqueue_push_loop1 (n + 1) g i (Buf.get g.buffer i) (Buf.get g.buffer (Gen.ccParent i)) false =
-      GenF.cc_pqueue_push_loop1 n { g with buffer := PQueue.swap g.buffer i (Gen.ccParent i) } (Gen.ccParent i)
+    GenF.cc_pqueue_push_loop1 dead (n + 1) g i (Buf.get g.buffer i) (Buf.get g.buffer (Gen.ccParent i)) false =
+      GenF.cc_pqueue_push_loop1 dead n { g with buffer := PQueue.swap g.buffer i (Gen.ccParent i) } (Gen.ccParent i)
         (Buf.get (PQueue.swap g.buffer i (Gen.ccParent i)) (Gen.ccParent i))
         (Buf.get (PQueue.swap g.buffer i (Gen.ccParent i)) (Gen.ccParent (Gen.ccParent i))) false := by
   have hp : Gen.ccParent i < i := ccParent_lt i h0
@@ -130,40 +141,41 @@ theorem loop_step_pos (cmp : Nat → Nat → Int) (n : Nat) (g : GenF.cc_pqueue_
     have := parent_le (Gen.ccParent i)
     omega
   simp only [GenF.cc_pqueue_push_loop1]
-  simp [hc, h0, hgt, parent_eq0, hb, hpb, hpp, PQueue.swap]
+  simp [hc, h0, hgt, parent_eq0, hb, hpb, hpp, hl1, hl2, PQueue.swap]
 
-theorem loop_step_neg (cmp : Nat → Nat → Int) (n : Nat) (g : GenF.cc_pqueue_s) (i c p : Nat)
-    (hc : g.cmp = some cmp) (h : ¬ (i ≠ 0 ∧ cmp c p > 0)) :
-    GenF.cc_pqueue_push_loop1 (n + 1) g i c p false = (g, i, c, p, false) := by
+theorem loop_step_neg (cmp : Nat → Nat → Int) (dead : List Nat) (n : Nat) (g : GenF.cc_pqueue_s) (i c p : Nat)
+    (hc : g.cmp = some cmp) (hl1 : GenF.isDead dead g.id_ = false) (h : ¬ (i ≠ 0 ∧ cmp c p > 0)) :
+    GenF.cc_pqueue_push_loop1 dead (n + 1) g i c p false = (g, i, c, p, false) := by
   simp only [GenF.cc_pqueue_push_loop1]
   by_cases h0 : i = 0
   · simp [h0, hc]
   · have : ¬ cmp c p > 0 := fun x => h ⟨h0, x⟩
-    simp [h0, hc, this]
+    simp [h0, hc, hl1, this]
 
-/-- the sift-up `while` loop of `cc_pqueue_push`, run with more fuel than the start index, is the model's
-`siftUp`: same buffer, no fault, ledger untouched -/
-theorem loop_siftUp (cmp : Nat → Nat → Int) : ∀ (fuel : Nat) (g : GenF.cc_pqueue_s) (i : Nat) (m : Mem),
+/-- the sift-up `while` loop of `cc_pqueue_push`, run with more fuel than the start index on a queue whose two
+blocks are live, is the model's `siftUp`: same buffer, no fault, ledger untouched -/
+theorem loop_siftUp (cmp : Nat → Nat → Int) (dead : List Nat) : ∀ (fuel : Nat) (g : GenF.cc_pqueue_s) (i : Nat) (m : Mem),
     i < fuel → i < g.buffer.length → g.cmp = some cmp →
-    (GenF.cc_pqueue_push_loop1 fuel g i (Buf.get g.buffer i) (Buf.get g.buffer (Gen.ccParent i)) false).1 =
+    GenF.isDead dead g.id_ = false → GenF.isDead dead g.buffer_id = false →
+    (GenF.cc_pqueue_push_loop1 dead fuel g i (Buf.get g.buffer i) (Buf.get g.buffer (Gen.ccParent i)) false).1 =
         { g with buffer := (PQueue.siftUp cmp g.buffer i m).1 } ∧
-    (GenF.cc_pqueue_push_loop1 fuel g i (Buf.get g.buffer i) (Buf.get g.buffer (Gen.ccParent i)) false).2.2.2.2 = false ∧
+    (GenF.cc_pqueue_push_loop1 dead fuel g i (Buf.get g.buffer i) (Buf.get g.buffer (Gen.ccParent i)) false).2.2.2.2 = false ∧
     (PQueue.siftUp cmp g.buffer i m).2 = m := by
   intro fuel
   induction fuel with
   | zero => intro g i m h; omega
   | succ n ih =>
-    intro g i m hi hb hc
+    intro g i m hi hb hc hl1 hl2
     rw [PQueue.siftUp]
     by_cases cnd : i ≠ 0 ∧ cmp (Buf.get g.buffer i) (Buf.get g.buffer (Gen.ccParent i)) > 0
     · have hp : Gen.ccParent i < i := ccParent_lt i cnd.1
-      rw [dif_pos cnd, loop_step_pos cmp n g i hc hb cnd.1 cnd.2]
+      rw [dif_pos cnd, loop_step_pos cmp dead n g i hc hb cnd.1 hl1 hl2 cnd.2]
       simp only [hb, decide_true, Mem.check_true]
       have hl : (PQueue.swap g.buffer i (Gen.ccParent i)).length = g.buffer.length := by simp [PQueue.swap]
       have := ih { g with buffer := PQueue.swap g.buffer i (Gen.ccParent i) } (Gen.ccParent i) m (by omega)
-        (by simp only [hl]; omega) hc
+        (by simp only [hl]; omega) hc hl1 hl2
       simpa using this
-    · rw [dif_neg cnd, loop_step_neg cmp n g i _ _ hc cnd]
+    · rw [dif_neg cnd, loop_step_neg cmp dead n g i _ _ hc hl1 cnd]
       simp
 
 theorem newcap_eq (f : Float32) (q : PQueue) (h5 : q.capacity ≤ Gen.CC_MAX_ELEMENTS / PQueue.ptrSize) :
@@ -176,10 +188,17 @@ theorem newcap_eq (f : Float32) (q : PQueue) (h5 : q.capacity ≤ Gen.CC_MAX_ELE
   simp only [this]
   first | rfl | (split <;> rfl) | (split <;> split <;> rfl)
 
-theorem expand_agrees (cmp : Nat → Nat → Int) (f : Float32) (q : PQueue) (m : Mem) (h : PQueue.Inv' cmp q) :
-    GenF.cc_pqueue_s__expand_capacity (ofPQ cmp f q) m =
-      ((PQueue.expandCapacity (growOf f) q m).1.code, ofPQ cmp f (PQueue.expandCapacity (growOf f) q m).2.1,
-       (PQueue.expandCapacity (growOf f) q m).2.2, false) := by
+/-- the static `expand_capacity`: on success the buffer is a fresh block (id `nid`) and the old one (id `bid`) has
+been released — after the copy —, otherwise nothing changes; fault-free -/
+theorem expand_agrees (cmp : Nat → Nat → Int) (f : Float32) (q : PQueue) (m : Mem) (sid bid nid : Nat)
+    (h : PQueue.Inv' cmp q) (hs : sid ≠ bid) :
+    GenF.cc_pqueue_s__expand_capacity (ofPQ cmp f q sid bid) m nid =
+      ((PQueue.expandCapacity (growOf f) q m).1.code,
+       ofPQ cmp f (PQueue.expandCapacity (growOf f) q m).2.1 sid
+         (if (PQueue.expandCapacity (growOf f) q m).1 = .ok then nid else bid),
+       (PQueue.expandCapacity (growOf f) q m).2.2,
+       (if (PQueue.expandCapacity (growOf f) q m).1 = .ok then nid + 1 else nid),
+       (if (PQueue.expandCapacity (growOf f) q m).1 = .ok then [bid] else []), false) := by
   obtain ⟨⟨h1, h2, h3, _⟩, h5⟩ := h
   have hgt := PQueue.newCapacity_gt (growOf f) q h5
   have hn := newcap_eq f q h5
@@ -198,10 +217,11 @@ theorem expand_agrees (cmp : Nat → Nat → Int) (f : Float32) (q : PQueue) (m 
   have c1' : ¬ nc > 18446744073709551614 / 8 := by simpa [Gen.CC_MAX_ELEMENTS, PQueue.ptrSize] using c1
   have w1 : GenF.wmul nc 8 / 8 = nc := wmul8 nc (by omega)
   have w2 : GenF.wmul q.size 8 / 8 = q.size := wmul8 q.size (by omega)
+  have w3 : GenF.wmul q.size 8 % 8 = 0 := wmul8_mod q.size
   have s1 : q.size ≤ q.buf.length := by omega
   have s2 : q.size ≤ nc := by omega
   by_cases a : (m.allocT q.triple).1 = true
-  · simp [c0, c0', c1, c1', a, w1, w2, s1, s2, codes]
+  · simp [c0, c0', c1, c1', a, w1, w2, w3, s1, s2, codes, GenF.isDead, hs]
   · simp [c0, c0', c1, c1', a, codes]
 
 theorem expand_len (cmp : Nat → Nat → Int) (grow : Nat → Nat) (q : PQueue) (m : Mem) (h : PQueue.Inv' cmp q)
@@ -216,97 +236,79 @@ theorem expand_len (cmp : Nat → Nat → Int) (grow : Nat → Nat) (q : PQueue)
   all_goals simp
   exact hgt
 
-/-- the part of `cc_pqueue_push` behind the capacity test, on any state whose block has room for one more
-element -/
-theorem tail_agrees (cmp : Nat → Nat → Int) (f : Float32) (q : PQueue) (x : Nat) (m : Mem) (fuel : Nat)
-    (hs : q.size < q.buf.length) (hf : q.size < fuel) :
-    let g : GenF.cc_pqueue_s := { ofPQ cmp f q with buffer := Buf.put q.buf q.size x, size := q.size + 1 }
-    (q.size ≠ 0 →
-      (GenF.cc_pqueue_push_loop1 fuel g q.size (Buf.get g.buffer q.size) (Buf.get g.buffer (Gen.ccParent q.size)) false).1 =
-        ofPQ cmp f (PQueue.storeSift cmp q x m).2.1 ∧
-      (GenF.cc_pqueue_push_loop1 fuel g q.size (Buf.get g.buffer q.size) (Buf.get g.buffer (Gen.ccParent q.size)) false).2.2.2.2 = false) ∧
-    (q.size = 0 → g = ofPQ cmp f (PQueue.storeSift cmp q x m).2.1) ∧
-    (PQueue.storeSift cmp q x m).1 = .ok ∧ (PQueue.storeSift cmp q x m).2.2 = m := by
-  intro g
-  have L := loop_siftUp cmp fuel g q.size m hf (by simp [g]; exact hs) rfl
-  unfold PQueue.storeSift
-  by_cases c : q.size = 0
-  · have hs0 : 0 < q.buf.length := by omega
-    simp [c, g, ofPQ, hs0]
-  · simp only [c, if_false, hs, decide_true, Mem.check_true]
-    refine ⟨fun _ => ⟨?_, L.2.1⟩, ?_, ?_, ?_⟩
-    · rw [L.1]; simp [g, ofPQ]
-    · simp
-    · simp
-    · simpa [g] using L.2.2
-
-/-- `cc_pqueue_push` on a state with room for one more element (no growth) -/
-theorem push_room (cmp : Nat → Nat → Int) (f : Float32) (q : PQueue) (x : Nat) (m : Mem) (fuel : Nat)
-    (hcap : q.size < q.capacity) (hs : q.size < q.buf.length) (hf : q.size < fuel) (h64 : q.size + 1 < 2 ^ 64) :
-    GenF.cc_pqueue_push (ofPQ cmp f q) x m fuel =
-      ((PQueue.storeSift cmp q x m).1.code, ofPQ cmp f (PQueue.storeSift cmp q x m).2.1,
-       (PQueue.storeSift cmp q x m).2.2, false) := by
+/-- the part of `cc_pqueue_push` behind the capacity test (`cc_pqueue_push_k1`: store at `size`, sift up), on any
+state whose block has room for one more element, for every set of released blocks that does not contain the
+queue's two blocks -/
+theorem tail_agrees (cmp : Nat → Nat → Int) (f : Float32) (q : PQueue) (x : Nat) (m : Mem) (fuel nid sid bid : Nat)
+    (dead : List Nat) (hs : q.size < q.buf.length) (hf : q.size < fuel) (h64 : q.size + 1 < 2 ^ 64)
+    (hl1 : GenF.isDead dead sid = false) (hl2 : GenF.isDead dead bid = false) :
+    GenF.cc_pqueue_push_k1 (ofPQ cmp f q sid bid) x m nid dead fuel false q.size =
+      ((PQueue.storeSift cmp q x m).1.code, ofPQ cmp f (PQueue.storeSift cmp q x m).2.1 sid bid,
+       (PQueue.storeSift cmp q x m).2.2, nid, dead, false) := by
   have hw : GenF.wadd q.size 1 = q.size + 1 := by unfold GenF.wadd; exact Nat.mod_eq_of_lt h64
   have hpl : Gen.ccParent q.size < q.buf.length := by have := parent_le q.size; omega
-  unfold GenF.cc_pqueue_push
-  dsimp only
-  have hd : decide ((ofPQ cmp f q).size ≥ (ofPQ cmp f q).capacity) = false := by
-    simp only [ofPQ, ge_iff_le, decide_eq_false_iff_not]; omega
-  rw [hd]
-  simp only [if_false, Bool.false_eq_true]
-  obtain ⟨T1, T2, T3, T4⟩ := tail_agrees cmp f q x m fuel hs hf
-  dsimp only [ofPQ] at T1 T2 ⊢
-  simp only [hw, decide_eq_true_eq, gt_iff_lt, parent_eq0, T3, T4]
-  simp only [hs, hpl, Buf.length_put, decide_true, Bool.not_true, Bool.or_false, Bool.false_or]
+  let g : GenF.cc_pqueue_s := { ofPQ cmp f q sid bid with buffer := Buf.put q.buf q.size x, size := q.size + 1 }
+  have L := loop_siftUp cmp dead fuel g q.size m hf (by simp [g]; exact hs) rfl hl1 hl2
+  unfold GenF.cc_pqueue_push_k1 PQueue.storeSift
   by_cases c : q.size = 0
-  · rw [← T2 c]; simp [c, codes]
-  · obtain ⟨e1, e2⟩ := T1 c
-    rw [e1, e2]; simp [c, codes]
+  · have hs0 : 0 < q.buf.length := by omega
+    simp [c, ofPQ, hs0, hl1, hl2, codes, GenF.wadd]
+  · simp only [g, ofPQ] at L
+    simp only [ofPQ, c, decide_false, if_false, hs, decide_true, Mem.check_true, hw, hl1, hl2, gt_iff_lt,
+      decide_eq_true_eq, parent_eq0, Buf.length_put, hpl, Bool.not_false, Bool.not_true, Bool.and_self,
+      Bool.or_false, Bool.false_eq_true]
+    rw [L.1, L.2.1, L.2.2]
+    simp [codes]
 
-/-- `cc_pqueue_push` (growth included): fault-free with `q.size < fuel`; status code, state, ledger -/
-theorem pq_push_agrees (cmp : Nat → Nat → Int) (f : Float32) (q : PQueue) (x : Nat) (m : Mem) (fuel : Nat)
-    (h : PQueue.Inv' cmp q) (hf : q.size < fuel) :
-    GenF.cc_pqueue_push (ofPQ cmp f q) x m fuel =
-      ((PQueue.push cmp (growOf f) q x m).1.code, ofPQ cmp f (PQueue.push cmp (growOf f) q x m).2.1,
-       (PQueue.push cmp (growOf f) q x m).2.2, false) := by
+/-- `cc_pqueue_push` (growth included): fault-free with `q.size < fuel`; status code, state, ledger, and the block
+ids: when the buffer grew, the new buffer block carries the id `nid` and the old one (`bid`) was released -/
+theorem pq_push_agrees (cmp : Nat → Nat → Int) (f : Float32) (q : PQueue) (x : Nat) (m : Mem) (fuel sid bid nid : Nat)
+    (h : PQueue.Inv' cmp q) (hf : q.size < fuel) (hsb : sid ≠ bid) (hbn : bid ≠ nid) :
+    GenF.cc_pqueue_push (ofPQ cmp f q sid bid) x m nid fuel =
+      ((PQueue.push cmp (growOf f) q x m).1.code,
+       ofPQ cmp f (PQueue.push cmp (growOf f) q x m).2.1 sid
+         (if q.size ≥ q.capacity ∧ (PQueue.expandCapacity (growOf f) q m).1 = .ok then nid else bid),
+       (PQueue.push cmp (growOf f) q x m).2.2,
+       (if q.size ≥ q.capacity ∧ (PQueue.expandCapacity (growOf f) q m).1 = .ok then nid + 1 else nid),
+       (if q.size ≥ q.capacity ∧ (PQueue.expandCapacity (growOf f) q m).1 = .ok then [bid] else []), false) := by
   have hI := h
   obtain ⟨⟨h1, h2, h3, _⟩, h5⟩ := h
   have h64 : q.size + 1 < 2 ^ 64 := by simp only [Gen.CC_MAX_ELEMENTS, PQueue.ptrSize] at h5; omega
-  have hw : GenF.wadd q.size 1 = q.size + 1 := by unfold GenF.wadd; exact Nat.mod_eq_of_lt h64
   rw [PQueue.push_eq]
+  unfold GenF.cc_pqueue_push
   by_cases hfull : q.size ≥ q.capacity
-  · simp only [hfull, if_true]
-    unfold GenF.cc_pqueue_push
+  · have hd : decide ((ofPQ cmp f q sid bid).size ≥ (ofPQ cmp f q sid bid).capacity) = true := by
+      change decide (q.size ≥ q.capacity) = true
+      simpa using hfull
     dsimp only
-    have hd : decide ((ofPQ cmp f q).size ≥ (ofPQ cmp f q).capacity) = true := by
-      simp only [ofPQ, ge_iff_le, decide_eq_true_eq]; omega
     rw [hd]
-    simp only [if_true]
-    rw [expand_agrees cmp f q m hI]
+    simp only [hfull, if_true, true_and]
+    rw [expand_agrees cmp f q m sid bid nid hI hsb]
     dsimp only
     by_cases hok : (PQueue.expandCapacity (growOf f) q m).1 = .ok
     · obtain ⟨hl, hcl⟩ := expand_len cmp (growOf f) q m hI hok
       have hsz := PQueue.expand_size (growOf f) q m
-      generalize PQueue.expandCapacity (growOf f) q m = e at *
-      have A := push_room cmp f e.2.1 x e.2.2 fuel (by omega) (by omega) (by omega) (by omega)
-      unfold GenF.cc_pqueue_push at A
-      dsimp only at A
-      have hd2 : decide ((ofPQ cmp f e.2.1).size ≥ (ofPQ cmp f e.2.1).capacity) = false := by
-        simp only [ofPQ, ge_iff_le, decide_eq_false_iff_not]; omega
-      rw [hd2] at A
-      simp only [if_false, Bool.false_eq_true] at A
-      simp only [hok, codes, ne_eq, not_true_eq_false, decide_false, if_false, Bool.false_eq_true, bne_self_eq_false]
-      have hq : (ofPQ cmp f q).size = (ofPQ cmp f e.2.1).size := by simp only [ofPQ, hsz]
-      simp only [hq, Bool.false_or] at A ⊢
-      exact A
+      simp only [hok, if_true, codes, ne_eq, not_true_eq_false, decide_false, if_false, Bool.false_eq_true,
+        bne_self_eq_false, Bool.false_or, List.append_nil]
+      have T := tail_agrees cmp f (PQueue.expandCapacity (growOf f) q m).2.1 x (PQueue.expandCapacity (growOf f) q m).2.2
+        fuel (nid + 1) sid nid [bid] (by omega) (by omega) (by omega)
+        (by simp [GenF.isDead, hsb]) (by simp [GenF.isDead]; exact fun e => hbn e.symm)
+      rw [hsz] at T
+      exact T
     · have hne : (PQueue.expandCapacity (growOf f) q m).1.code ≠ 0 := by
         intro hc; apply hok; revert hc
         cases (PQueue.expandCapacity (growOf f) q m).1 <;> simp [Stat.code, Gen.CC_OK, Gen.CC_ERR_ALLOC,
           Gen.CC_ERR_INVALID_CAPACITY, Gen.CC_ERR_INVALID_RANGE, Gen.CC_ERR_MAX_CAPACITY, Gen.CC_ERR_KEY_NOT_FOUND,
           Gen.CC_ERR_VALUE_NOT_FOUND, Gen.CC_ERR_OUT_OF_RANGE, Gen.CC_ITER_END]
       simp [hok, hne]
-  · simp only [hfull, if_false]
-    exact push_room cmp f q x m fuel (by omega) (by omega) hf h64
+  · have hd : decide ((ofPQ cmp f q sid bid).size ≥ (ofPQ cmp f q sid bid).capacity) = false := by
+      change decide (q.size ≥ q.capacity) = false
+      simpa using hfull
+    dsimp only
+    rw [hd]
+    simp only [hfull, if_false, false_and, Bool.false_eq_true]
+    have T := tail_agrees cmp f q x m fuel nid sid bid [] (by omega) hf h64 (by simp [GenF.isDead]) (by simp [GenF.isDead])
+    exact T
 
 theorem heapify_step (cmp : Nat → Nat → Int) (fuel : Nat) (g : GenF.cc_pqueue_s) (index : Nat)
     (hc : g.cmp = some cmp) (hsz : ¬ g.size ≤ 1) (hi : index < g.size) (hl : g.size ≤ g.buffer.length)
@@ -432,21 +434,24 @@ theorem pq_conf_init_agrees (cmp : Nat → Nat → Int) (u : GenF.cc_pqueue_conf
   unfold GenF.cc_pqueue_conf_init confOf
   simp [Gen.PQUEUE_DEFAULT_CAPACITY]
 
-/-- `cc_pqueue_new`: whatever the uninitialised local configuration contained, it is `cc_pqueue_new_conf` with
-the file's defaults on the C library's triple -/
-theorem pq_new_agrees (cmp : Nat → Nat → Int) (u : GenF.cc_pqueue_conf_s) (m : Mem) :
-    GenF.cc_pqueue_new (some cmp) u m =
+/-- `cc_pqueue_new`: whatever the uninitialised locals contained, it is `cc_pqueue_new_conf` with the file's
+defaults on the C library's triple (whose allocations are never refused) -/
+theorem pq_new_agrees (cmp : Nat → Nat → Int) (u : GenF.cc_pqueue_conf_s) (m : Mem) (nid : Nat) :
+    GenF.cc_pqueue_new (some cmp) u m nid =
       ((PQueue.new Gen.PQUEUE_DEFAULT_CAPACITY (exGeOf (effF (Float32.ofNat 2))) .libc m).1.code,
        (PQueue.new Gen.PQUEUE_DEFAULT_CAPACITY (exGeOf (effF (Float32.ofNat 2))) .libc m).2.1.map
-         (ofPQ cmp (effF (Float32.ofNat 2))),
-       (PQueue.new Gen.PQUEUE_DEFAULT_CAPACITY (exGeOf (effF (Float32.ofNat 2))) .libc m).2.2, false) := by
+         (fun q => ofPQ cmp (effF (Float32.ofNat 2)) q nid (nid + 1)),
+       (PQueue.new Gen.PQUEUE_DEFAULT_CAPACITY (exGeOf (effF (Float32.ofNat 2))) .libc m).2.2,
+       (if exGeOf (effF (Float32.ofNat 2)) (Gen.CC_MAX_ELEMENTS / Gen.PQUEUE_DEFAULT_CAPACITY) = true then nid else nid + 2),
+       [], false) := by
   unfold GenF.cc_pqueue_new
   simp only [pq_conf_init_agrees, pq_new_conf_agrees]
-  simp
+  simp [Mem.allocT, Gen.PQUEUE_DEFAULT_CAPACITY, Gen.CC_MAX_ELEMENTS, PQueue.ptrSize]
+  rfl
 
 /-- the hypotheses are satisfiable by a non-trivial state, and the statements are not vacuous: a heap of three
 elements under the numeric order; the translated `pop` with fuel 3 returns the maximum, restores the heap and
-does not fault; with fuel 0 it reports a fault -/
+does not fault; with fuel 0 it reports a fault; releasing the same block twice is a fault -/
 example :
     let cmp : Nat → Nat → Int := fun a b => (a : Int) - b
     let q : PQueue := { size := 3, capacity := 4, buf := [9, 5, 7, 0] }
@@ -455,6 +460,8 @@ example :
     (GenF.cc_pqueue_pop (ofPQ cmp 2 q) true 3).2.2.1.buffer = [7, 5, 9, 0] ∧
     (GenF.cc_pqueue_pop (ofPQ cmp 2 q) true 3).2.2.2 = false ∧
     (GenF.cc_pqueue_pop (ofPQ cmp 2 q) true 0).2.2.2 = true ∧
-    (GenF.cc_pqueue_push (ofPQ cmp 2 q) 8 {} 4).2.1.buffer = [9, 8, 7, 5] := by decide
+    (GenF.cc_pqueue_push (ofPQ cmp 2 q 1 2) 8 {} 3 4).2.1.buffer = [9, 8, 7, 5] ∧
+    (GenF.cc_pqueue_destroy (ofPQ cmp 2 q 1 2) {}).2.2 = false ∧
+    (GenF.cc_pqueue_destroy (ofPQ cmp 2 q 1 1) {}).2.2 = true := by decide
 
 end CC.Properties.C10Gen
